@@ -54,11 +54,16 @@ type memStore struct {
 	failAfter       int                // -1 ok; k>=0: k more writes succeed, then every write fails
 	succ            []int              // hours of successful writes since failAfter was set
 	dead            bool               // process "crashed": nothing reaches storage
+	stall           bool               // failing writes block until the flush context is done
+	stalledIDs      []int64            // rows of the writes that stalled since the last worker task finished
+	unflagged       map[int64]bool     // rows whose stalled worker flush ended without the flush-failure flag
 	clashes         int
 	badDecode       int
 }
 
-func newMemStore() *memStore { return &memStore{files: map[string][]int64{}, failAfter: -1} }
+func newMemStore() *memStore {
+	return &memStore{files: map[string][]int64{}, failAfter: -1, unflagged: map[int64]bool{}}
+}
 
 func hourOfPath(p string) int {
 	// db/m/YYYY/MM/DD/HH/file
@@ -79,6 +84,21 @@ func (m *memStore) Write(ctx context.Context, path string, data []byte) error {
 		return fmt.Errorf("storage unreachable (process gone)")
 	}
 	if m.failAfter == 0 {
+		if m.stall {
+			if g, err := gidsOfParquet(data); err == nil {
+				m.stalledIDs = append(m.stalledIDs, g...)
+			}
+			m.mu.Unlock()
+			select { // a storage write that never returns: only the flush deadline ends it
+			case <-ctx.Done():
+			case <-time.After(5 * time.Second):
+			}
+			m.mu.Lock()
+			if err := ctx.Err(); err != nil {
+				return err
+			}
+			return fmt.Errorf("injected storage stall (context without deadline)")
+		}
 		return fmt.Errorf("injected storage failure")
 	}
 	if m.failAfter > 0 {
@@ -275,6 +295,7 @@ type sys struct {
 	buf   *ingest.ArrowBuffer
 	coord *shutdown.Coordinator
 	dec   *ingest.MessagePackDecoder
+	decTyped *ingest.MessagePackDecoder
 
 	now      int64 // model seconds
 	up       bool
@@ -290,7 +311,20 @@ type sys struct {
 func newSys(cc caseCfg, facts factsT, root string) *sys {
 	s := &sys{cc: cc, facts: facts, root: root, walDir: filepath.Join(root, "wal"), store: newMemStore(), g: newGate(),
 		sizes: map[string]int64{}, dec: ingest.NewMessagePackDecoder(zerolog.Nop())}
+	s.decTyped = ingest.NewMessagePackDecoder(zerolog.Nop())
+	s.decTyped.SetTypedDecodeEnabled(true)
 	ingest.VerifC07Gate = s.g.enter
+	st := s.store
+	ingest.VerifC07OnDone = func(flag bool) {
+		st.mu.Lock()
+		if !flag {
+			for _, id := range st.stalledIDs {
+				st.unflagged[id] = true
+			}
+		}
+		st.stalledIDs = nil
+		st.mu.Unlock()
+	}
 	return s
 }
 
@@ -428,7 +462,12 @@ func walFileIDs(path string) []int64 {
 	var out []int64
 	for _, e := range es {
 		if e.ColumnarData == nil {
-			out = append(out, -3)
+			if e.Records == nil {
+				out = append(out, -3)
+			}
+			for _, rec := range e.Records {
+				out = append(out, toI64(rec["gid"]))
+			}
 			continue
 		}
 		for _, v := range e.ColumnarData.Columns["gid"] {
@@ -537,7 +576,34 @@ func (s *sys) colCallback() wal.ColumnarRecoveryCallback {
 	}
 }
 
-func rowCallback(context.Context, []map[string]interface{}) error { return nil }
+// same body as cmd/arc/main.go:createWALRecoveryCallback (row-format entries: one write per record)
+func (s *sys) rowCallback() wal.RecoveryCallback {
+	return func(ctx context.Context, records []map[string]interface{}) error {
+		for _, rec := range records {
+			measurement, _ := rec["_measurement"].(string)
+			if measurement == "" {
+				continue
+			}
+			database, _ := rec["_database"].(string)
+			if database == "" {
+				database = "default"
+			}
+			columns := make(map[string][]interface{})
+			for key, value := range rec {
+				if key == "_measurement" || key == "_database" {
+					continue
+				}
+				columns[key] = []interface{}{value}
+			}
+			err := s.buf.WriteColumnarDirectNoWAL(ctx, database, measurement, columns)
+			s.settleWorker()
+			if err != nil {
+				return err
+			}
+		}
+		return nil
+	}
+}
 
 func (s *sys) restart() {
 	if s.cc.wal {
@@ -554,6 +620,12 @@ func (s *sys) restart() {
 		WriteStatistics: true, DataPageVersion: "2.0", FlushWorkers: 1, FlushQueueSize: s.cc.qCap, ShardCount: 2}
 	s.g.set(false)
 	s.buf = ingest.NewArrowBuffer(cfg, s.store, zerolog.Nop())
+	s.store.mu.Lock()
+	stalling := s.store.stall
+	s.store.mu.Unlock()
+	if stalling {
+		s.buf.VerifC07SetFlushTimeout(3 * time.Millisecond)
+	}
 	s.coord = shutdown.New(60*time.Second, zerolog.Nop())
 	// registrations exactly as extracted from cmd/arc/main.go (kind + priority decide the order)
 	for _, r := range s.facts.regs {
@@ -581,7 +653,7 @@ func (s *sys) restart() {
 		s.buf.SetWAL(s.w)
 		s.fixMtimes() // the fresh active file
 		rec := wal.NewRecovery(s.walDir, zerolog.Nop())
-		_, err := rec.RecoverWithOptions(context.Background(), rowCallback, &wal.RecoveryOptions{
+		_, err := rec.RecoverWithOptions(context.Background(), s.rowCallback(), &wal.RecoveryOptions{
 			SkipActiveFile: s.w.CurrentFile(), ColumnarCallback: s.colCallback()})
 		if err != nil {
 			s.fail("startup recovery: %v", err)
@@ -593,7 +665,26 @@ type closerFunc func() error
 
 func (f closerFunc) Close() error { return f() }
 
-func (s *sys) write(key int, rows []row) {
+// writeDirect: ArrowBuffer.WriteTypedColumnarDirect with a pre-typed batch (TLE / importer path; the WAL
+// gets the row-format fallback of typedBatchToWALRecords)
+func (s *sys) writeDirect(key int, rows []row) {
+	times := make([]int64, len(rows))
+	gids := make([]int64, len(rows))
+	for i, r := range rows {
+		times[i] = t0.Add(time.Duration(r.hour)*time.Hour).UnixMicro() + r.id
+		gids[i] = r.id
+	}
+	batch := &ingest.TypedColumnBatch{Data: map[string]interface{}{"time": times, "gid": gids}}
+	if s.w != nil {
+		s.walSent++
+	}
+	err := s.buf.WriteTypedColumnarDirect(context.Background(), "db", fmt.Sprintf("m%d", key), batch, len(rows))
+	s.lastAck = err == nil
+	s.settleWAL()
+	s.settleWorker()
+}
+
+func (s *sys) write(key int, rows []row, typed bool) {
 	times := make([]interface{}, len(rows))
 	gids := make([]interface{}, len(rows))
 	for i, r := range rows {
@@ -606,10 +697,23 @@ func (s *sys) write(key int, rows []row) {
 		s.fail("marshal: %v", err)
 		return
 	}
-	recs, err := s.dec.Decode(payload)
+	dec := s.dec
+	if typed {
+		dec = s.decTyped
+	}
+	recs, err := dec.Decode(payload)
 	if err != nil {
 		s.fail("decode: %v", err)
 		return
+	}
+	if typed {
+		if l, ok := recs.([]interface{}); !ok || len(l) != 1 {
+			s.fail("typed decode: unexpected result %T", recs)
+			return
+		} else if _, ok := l[0].(*ingest.TypedColumnarRecord); !ok {
+			s.fail("typed decode fell back to the generic path: %T", l[0])
+			return
+		}
 	}
 	if s.w != nil {
 		s.walSent++
@@ -636,7 +740,7 @@ func (s *sys) tick() {
 			s.w.PurgeOlderThan(s.facts.safeAge())
 		case "replay":
 			rec := wal.NewRecovery(s.walDir, zerolog.Nop())
-			_, err := rec.RecoverWithOptions(context.Background(), rowCallback, &wal.RecoveryOptions{
+			_, err := rec.RecoverWithOptions(context.Background(), s.rowCallback(), &wal.RecoveryOptions{
 				SkipActiveFile: s.w.CurrentFile(), MinFileAge: s.facts.minFileAge, ColumnarCallback: s.colCallback()})
 			ok = err == nil
 		case "reset":
@@ -733,12 +837,12 @@ func (o op) text(obsDrained int) string {
 			return "mode ok"
 		}
 		return fmt.Sprintf("mode %d", o.n)
-	case "w":
+	case "w", "wt", "wd":
 		p := make([]string, len(o.rows))
 		for i, r := range o.rows {
 			p[i] = fmt.Sprintf("%d:%d", r.id, r.hour)
 		}
-		return fmt.Sprintf("w %d %s", o.key, strings.Join(p, ","))
+		return fmt.Sprintf("%s %d %s", o.kind, o.key, strings.Join(p, ","))
 	case "shut":
 		return fmt.Sprintf("shut %d", obsDrained)
 	}
@@ -749,7 +853,7 @@ func (o op) text(obsDrained int) string {
 func (s *sys) apply(o op) (string, string, obsState) {
 	s.lastAck = false
 	drained := 0
-	needUp := o.kind != "adv" && o.kind != "mode" && o.kind != "restart"
+	needUp := o.kind != "adv" && o.kind != "mode" && o.kind != "stall" && o.kind != "restart"
 	switch {
 	case o.kind == "adv":
 		s.now += int64(o.n)
@@ -765,11 +869,28 @@ func (s *sys) apply(o op) (string, string, obsState) {
 			s.store.mu.Lock()
 			s.store.failAfter = o.n
 			s.store.succ = nil
+			s.store.stall = false
 			s.store.mu.Unlock()
+			if s.up {
+				s.buf.VerifC07SetFlushTimeout(30 * time.Second)
+			}
 		case "restart":
 			s.restart()
 		case "w":
-			s.write(o.key, o.rows)
+			s.write(o.key, o.rows, false)
+		case "wt":
+			s.write(o.key, o.rows, true)
+		case "wd":
+			s.writeDirect(o.key, o.rows)
+		case "stall":
+			s.store.mu.Lock()
+			s.store.failAfter = 0
+			s.store.succ = nil
+			s.store.stall = true
+			s.store.mu.Unlock()
+			if s.up {
+				s.buf.VerifC07SetFlushTimeout(3 * time.Millisecond)
+			}
 		case "wpause":
 			if s.w != nil && !s.paused {
 				s.w.VerifC07Lock()
@@ -805,6 +926,17 @@ func (s *sys) apply(o op) (string, string, obsState) {
 			s.crash()
 		}
 	}
+	// rows whose stalled SYNC flush (aged flush) ended in this op: flagged?
+	s.store.mu.Lock()
+	if len(s.store.stalledIDs) > 0 {
+		if s.up && o.kind == "age" && !s.buf.HasFlushFailure() {
+			for _, id := range s.store.stalledIDs {
+				s.store.unflagged[id] = true
+			}
+		}
+		s.store.stalledIDs = nil
+	}
+	s.store.mu.Unlock()
 	if s.up || o.kind == "shut" || o.kind == "crash" {
 		s.fixMtimes()
 	}
